@@ -15,6 +15,7 @@ def lastwins(kind, key, val):
     V = lambda j: val.format(t=f"{S}[{j}]")
     return [
         "isfresh(result)",
+        "forallv(lambda k: implies(dhas(result, k), typ(k, 'str')))",
         # every statement accounted for
         f"forall(lambda j: implies(0 <= j < len({S}), dhas(result, {K('j')})))",
         # nothing invented: every entry is (name, value) of some statement
@@ -25,19 +26,19 @@ def lastwins(kind, key, val):
     ]
 
 
-contract("decaylanguage.dec.dec.get_aliases", types={"parsed_file": "obj:Tree"}, requires=WF,
+contract("decaylanguage.dec.dec.get_aliases", types={"parsed_file": "obj:Tree"}, requires=["wf_labels(parsed_file, 'alias')"],
          ensures=lastwins("alias", "{t}.children[0].value", "{t}.children[1].value"),
          returns="dict", properties=["C07"])
 
-contract("decaylanguage.dec.dec.get_charge_conjugate_defs", types={"parsed_file": "obj:Tree"}, requires=WF,
+contract("decaylanguage.dec.dec.get_charge_conjugate_defs", types={"parsed_file": "obj:Tree"}, requires=["wf_labels(parsed_file, 'chargeconj')"],
          ensures=lastwins("chargeconj", "{t}.children[0].value", "{t}.children[1].value"),
          returns="dict", properties=["C07", "C03"])
 
-contract("decaylanguage.dec.dec.get_definitions", types={"parsed_file": "obj:Tree"}, requires=WF,
+contract("decaylanguage.dec.dec.get_definitions", types={"parsed_file": "obj:Tree"}, requires=["wf_labels(parsed_file, 'define')"],
          ensures=lastwins("define", "{t}.children[0].value", "float({t}.children[1].value)"),
          returns="dict", properties=["C07", "C05"])
 
-contract("decaylanguage.dec.dec.get_decays2copy_statements", types={"parsed_file": "obj:Tree"}, requires=WF,
+contract("decaylanguage.dec.dec.get_decays2copy_statements", types={"parsed_file": "obj:Tree"}, requires=["wf_labels(parsed_file, 'copydecay', 'label')"],
          ensures=lastwins("copydecay", "{t}.children[0].children[0].value", "{t}.children[1].children[0].value"),
          returns="dict", properties=["C07", "C08"])
 
@@ -52,7 +53,7 @@ contract("decaylanguage.dec.dec._str_to_bool", types={"arg": "str"},
          returns="bool", properties=["C07"])
 
 S = "stmts(parsed_file, 'global_photos')"
-contract("decaylanguage.dec.dec.get_global_photos_flag", types={"parsed_file": "obj:Tree"}, requires=WF,
+contract("decaylanguage.dec.dec.get_global_photos_flag", types={"parsed_file": "obj:Tree"}, requires=["wf_labels(parsed_file, 'global_photos', 'yes', 'no')"],
          ensures=[
              # off when absent
              f"implies(len({S}) == 0, result == 0)",
@@ -62,7 +63,7 @@ contract("decaylanguage.dec.dec.get_global_photos_flag", types={"parsed_file": "
          returns="int", properties=["C07"])
 
 S = "stmts(parsed_file, 'cdecay')"
-contract("decaylanguage.dec.dec.get_charge_conjugate_decays", types={"parsed_file": "obj:Tree"}, requires=WF,
+contract("decaylanguage.dec.dec.get_charge_conjugate_decays", types={"parsed_file": "obj:Tree"}, requires=["wf_labels(parsed_file, 'cdecay')"],
          ensures=[
              "isfresh(result)",
              f"len(result) == len({S})",
@@ -89,7 +90,7 @@ def _pw(L, j):
             f"lget({e}, 1) == int({S}[{j}].children[3].value)"]
 
 
-contract("decaylanguage.dec.dec.get_lineshapePW_definitions", types={"parsed_file": "obj:Tree"}, requires=WF,
+contract("decaylanguage.dec.dec.get_lineshapePW_definitions", types={"parsed_file": "obj:Tree"}, requires=["wf_labels(parsed_file, 'setlspw')"],
          ensures=["isfresh(result)", f"len(result) == len({S})"] +
                  # every statement, in order, as ([mother, d1, d2], int)
                  [f"forall(lambda j: implies(0 <= j < len(result), {c}))" for c in _pw("result", "j")],
@@ -105,20 +106,20 @@ contract("decaylanguage.dec.dec.get_lineshapePW_definitions", types={"parsed_fil
 from pyvc.contracts import REG  # noqa: E402
 
 
-def wrapper(method, getter, props):
+def wrapper(method, getter, props, labels):
     g = REG.contracts["decaylanguage.dec.dec." + getter]
     sub = lambda src: src.replace("parsed_file", "self._parsed_dec_file")
     contract("decaylanguage.dec.dec.DecFileParser." + method,
-             requires=["self._parsed_dec_file is None or (typ(self._parsed_dec_file, 'obj:Tree') and wf_file(self._parsed_dec_file))"],
+             requires=[f"self._parsed_dec_file is None or (typ(self._parsed_dec_file, 'obj:Tree') and wf_labels(self._parsed_dec_file, {labels}))"],
              ensures=[sub(e) for e in g.ensures_src],
              raises={"DecFileNotParsed": "self._parsed_dec_file is None"},
              returns=g.returns, properties=props)
 
 
-wrapper("dict_decays2copy", "get_decays2copy_statements", ["C07", "C08"])
-wrapper("dict_definitions", "get_definitions", ["C07", "C05"])
-wrapper("dict_aliases", "get_aliases", ["C07"])
-wrapper("dict_charge_conjugates", "get_charge_conjugate_defs", ["C07", "C03"])
-wrapper("list_charge_conjugate_decays", "get_charge_conjugate_decays", ["C07", "C03"])
-wrapper("list_lineshapePW_definitions", "get_lineshapePW_definitions", ["C07"])
-wrapper("global_photos_flag", "get_global_photos_flag", ["C07"])
+wrapper("dict_decays2copy", "get_decays2copy_statements", ["C07", "C08"], "'copydecay', 'label'")
+wrapper("dict_definitions", "get_definitions", ["C07", "C05"], "'define'")
+wrapper("dict_aliases", "get_aliases", ["C07"], "'alias'")
+wrapper("dict_charge_conjugates", "get_charge_conjugate_defs", ["C07", "C03"], "'chargeconj'")
+wrapper("list_charge_conjugate_decays", "get_charge_conjugate_decays", ["C07", "C03"], "'cdecay'")
+wrapper("list_lineshapePW_definitions", "get_lineshapePW_definitions", ["C07"], "'setlspw'")
+wrapper("global_photos_flag", "get_global_photos_flag", ["C07"], "'global_photos', 'yes', 'no'")
